@@ -80,6 +80,8 @@ def examples():
 
 
 def prefix_violation(res, H):
+    if res.get('timeout'):
+        return None
     if 'error' in res:
         return 'pipeline fails: ' + json.dumps(res['error'])
     for h in range(H):
